@@ -34,6 +34,8 @@ UpuNssai == \A k \in 1..Len(sets) : sets[k].sec = << >> =>
                                 + 5 * Cardinality({i \in 1..Len(sets[k].nssai) : sets[k].nssai[i].sd # << >>})
 \* one-octet and two-octet length fields give different octets whenever there is a data set
 UpuReadingsDiffer == sets # << >> => McUpuEncodeW(reg, ack, Mac, Ctr, ss, 1) # McUpuEncodeW(reg, ack, Mac, Ctr, ss, 2)
+\* NEGATIVE CONTROL (must be violated): a reader of two-octet lengths cannot read the one-octet form
+UpuOneOctetReadable == McUpuParse(McUpuEncodeW(reg, ack, Mac, Ctr, ss, 1)).ok
 ASSUME McUpuLenOctets = 2
 ASSUME McUpuEncode(TRUE, FALSE, Mac, Ctr, <<[ty |-> 2, body |-> <<1, 1>>]>>) = <<4>> \o Mac \o Ctr \o <<2, 0, 2, 1, 1>>
 Emit == PrintT(ToJson([kind |-> "upu", reg |-> reg, ack |-> ack, mac |-> Mac, ctr |-> Ctr, sets |-> sets]))
